@@ -26,6 +26,7 @@ func c08(args []string) int {
 	compareReference = false
 	framesStreams(run, ss, "c08", false, run.N(100, 2000), false)
 	framesRandom(run, ss, run.N(60, 1000))
+	framesPaddedBoundaries(run, ss)
 	hpackReprSessions(run, ss, run.N(100, 2500), true)
 	hpackKnobSessions(run, ss, run.N(50, 1200))
 	hpackIntsMalformed(run, ss)
